@@ -1066,6 +1066,19 @@ def solve(objfun, x0, h=None, lh=None, prox_uh=None, argsf=(), argsh=(), argspro
     if exit_info is None and not all_ok:
         exit_info = ExitInformation(EXIT_INPUT_ERROR, "Bad parameters: %s" % str(bad_keys))
 
+    # Values at the end of the allowed interval that would make the algorithm degenerate
+    if exit_info is None and params("tr_radius.alpha1") >= 1.0:
+        exit_info = ExitInformation(EXIT_INPUT_ERROR, "tr_radius.alpha1 must be strictly less than 1 (rho must decrease)")
+
+    if exit_info is None and params("general.safety_step_thresh") <= 0.0:
+        exit_info = ExitInformation(EXIT_INPUT_ERROR, "general.safety_step_thresh must be strictly positive (zero-length steps would be accepted)")
+
+    if exit_info is None and h is not None and params("func_tol.criticality_measure") <= 0.0:
+        exit_info = ExitInformation(EXIT_INPUT_ERROR, "func_tol.criticality_measure must be strictly positive")
+
+    if exit_info is None and h is not None and params("func_tol.tr_step") >= 1.0:
+        exit_info = ExitInformation(EXIT_INPUT_ERROR, "func_tol.tr_step must be strictly less than 1")
+
     if exit_info is None and params("growing.safety.full_geom_step"):
         if params("growing.safety.reduce_delta"):
             exit_info = ExitInformation(EXIT_INPUT_ERROR,
